@@ -15,6 +15,7 @@ BUDGET = {
     "quick": {"workers": 16, "cases": 1500, "secs": 60, "min_cases": 12000},
     "thorough": {"workers": 16, "rounds": 4, "cases": 4000, "secs": 420, "min_cases": 128000},
 }
+SIBLINGS = True  # consecutive cases with identical structure and different gate types
 ANCHORS = ["circuit:Circuit.remove_unloaded"]
 
 
